@@ -63,9 +63,9 @@ pub fn run(op: &str, e: &Value, ctx: &mut Ctx) -> Result<Value, String> {
         "ct.run" => {
             // target: the operation; in[0]: secret bytes (32 or 64); in[1]: public bytes
             let target = e["target"].as_str().ok_or("target")?;
-            // in[0] is a LIST of candidate secrets; the environment variable VERIF_CT_SEL (one digit) picks one, so that the
+            // in[0] is a LIST of candidate secrets; the environment variable VERIF_CT_SEL (one base-36 digit) picks one, so that the
             // script file, argv and environment have identical sizes in runs that differ only in the secret
-            let sel = std::env::var("VERIF_CT_SEL").ok().and_then(|s| s.parse::<usize>().ok()).unwrap_or(0);
+            let sel = std::env::var("VERIF_CT_SEL").ok().and_then(|s| usize::from_str_radix(&s, 36).ok()).unwrap_or(0);
             let cands = inp(e, 0)?.as_array().ok_or("secrets")?;
             let sec = bytes_of(&cands[sel % cands.len()])?;
             let publ = if n_in(e) > 1 { bytes_of(inp(e, 1)?)? } else { vec![] };
@@ -117,6 +117,15 @@ pub fn run(op: &str, e: &Value, ctx: &mut Ctx) -> Result<Value, String> {
                     let mut sp = RistrettoPoint::mul_base(&sk); define(&sp, 160); undefine(&sp, 160);
                     let (r, k) = window(|| { let q = &sp + &pub_ris; let c = q.compress(); use subtle::ConstantTimeEq; let _ = q.ct_eq(&sp); c });
                     n = k; define(&r, 32); out = r.to_bytes().to_vec(); std::mem::forget(sp); }
+                "ris.compress_secret" => {
+                    // the encoder on a secret point itself (sk = 0: the identity, where the inverse square root is taken of zero)
+                    let sp = RistrettoPoint::mul_base(&sk); undefine(&sp, 160);
+                    let (r, k) = window(|| sp.compress());
+                    n = k; define(&r, 32); out = r.to_bytes().to_vec(); std::mem::forget(sp); }
+                "ed.compress_secret" => {
+                    let sp = EdwardsPoint::mul_base(&sk); undefine(&sp, 160);
+                    let (r, k) = window(|| (sp.compress(), sp.to_montgomery()));
+                    n = k; define(&r, 64); out = r.0.to_bytes().to_vec(); std::mem::forget(sp); }
                 "ris.mul" => { secret!(sk, 32); let (r, k) = window(|| &pub_ris * &sk); n = k; define(&r, 160); out = r.compress().to_bytes().to_vec(); }
                 "ris.multiscalar_mul" => { let ss = [sk, sk2]; undefine(&ss, 64); let ps = [pub_ris, pub_ris + pub_ris];
                     let (r, k) = window(|| RistrettoPoint::multiscalar_mul(ss.iter(), ps.iter())); n = k; define(&r, 160); out = r.compress().to_bytes().to_vec(); }
